@@ -165,6 +165,11 @@ func runC03(c *Ctx, pr *PropertyRun) {
 		}
 	}
 
+	// reported hrefs are decoded paths, never re-parsed as URLs
+	urlParseRule(c, pr, "C03", nil)
+	// the refusal reaches the client as the 4xx it was labelled with
+	serveErrorTable(c, pr, "C03")
+
 	hrefs := NewRule("C03", "C03.hrefs", "every FileInfo.Path is \"/\"+ToSlash(Rel(root, p)) of a Walk path, or the request name itself (E2 + backward derivation)")
 	pr.Rules = append(pr.Rules, hrefs)
 	c03Hrefs(c, hrefs, sz)
